@@ -189,7 +189,7 @@ def run_history(drv, steps, out, stats, label):
             if res != want:
                 out.failures.append({**where, "what": f"checker {ident} returned {calls[0][2]} for {value!r} but the verdict is {res}", "finding": None})
         # --- the model, on histories with pure checkers only
-        if pure:
+        if pure and drv is not None:
             rep = drv.ask({"op": "format_history", "checkers": [[k, v] for k, v in checkers.items()],
                            "initial": [[nm, "builtin:" + nm] for nm in initial_names], "ops": model_ops})
             if "error" in rep:
@@ -203,6 +203,35 @@ def run_history(drv, steps, out, stats, label):
     finally:
         reg.clear()
         reg.update(saved)
+
+
+def fresh_process_history(steps, out, stats, label):
+    """Run one history in a fresh interpreter (nothing has been looked up or registered there yet) and collect what
+    its oracle says."""
+    import json
+    import os
+    import subprocess
+    import sys
+    env = dict(os.environ)
+    env["PYTHONPATH"] = "/verif:/repo"
+    code = ("import json,sys\n"
+            "from harness.framework import Outcome\n"
+            "from harness.props import c16\n"
+            "steps=[tuple(s) for s in json.load(sys.stdin)]\n"
+            "out,stats=Outcome(),{}\n"
+            "c16.run_history(None, steps, out, stats, 'fresh-process')\n"
+            "json.dump({'failures': out.failures, 'stats': stats}, sys.stdout, default=str)\n")
+    proc = subprocess.run([sys.executable, "-c", code], input=json.dumps([list(s) for s in steps]), capture_output=True, text=True,
+                          env=env, timeout=300, check=False)
+    stats["fresh-processes"] = stats.get("fresh-processes", 0) + 1
+    if proc.returncode != 0:
+        stats["fresh-process-error"] = stats.get("fresh-process-error", 0) + 1
+        return
+    rep = json.loads(proc.stdout)
+    out.note_case({"label": label, "steps": [list(s) for s in steps], "fresh_process": True}, True)
+    for f in rep["failures"]:
+        f["case"]["fresh_process"] = True
+        out.failures.append(f)
 
 
 def random_history(rng, n_steps):
@@ -313,6 +342,20 @@ def run(ctx, scale=1.0):
         ]
         for k, steps in enumerate(fixed):
             run_history(drv, steps, out, stats, f"fixed-{k}")
+        # histories whose first actions happen in an interpreter where nothing has been looked up yet
+        fresh = [
+            [("register", "uuid", "no"), ("check", "String", "never-registered", "x"), ("check", "String", "uuid", "00000000-0000-0000-0000-000000000000"),
+             ("check", "String", "date-time", "2020-01-01T00:00:00Z")],
+            [("register", "date-time", "yes"), ("check", "Element", "unknown", "x"), ("check", "String", "date-time", "not a date"),
+             ("check", "String", "uuid", "not-a-uuid")],
+            [("check", "String", "uuid", "not-a-uuid"), ("register", "uuid", "yes"), ("check", "String", "other", "x"), ("check", "String", "uuid", "not-a-uuid")],
+            [("register", "custom", "no"), ("check", "String", "custom", "abc"), ("check", "String", "uuid", "00000000-0000-0000-0000-000000000000")],
+        ]
+        for k, steps in enumerate(fresh):
+            fresh_process_history(steps, out, stats, f"fresh-{k}")
+        for k in range(int((3 if ctx["tier"] == "quick" else 60) * scale)):
+            steps = random_history(rng, rng.randint(4, 10))
+            fresh_process_history([("register", rng.choice(["uuid", "date-time"]), rng.choice(["yes", "no", "digits"]))] + steps, out, stats, f"fresh-random-{k}")
         check_builtins(rng, int((4000 if ctx["tier"] == "quick" else 200000) * scale), out, stats)
     finally:
         drv.close()
@@ -333,6 +376,9 @@ def _replay_case(case):
     if "builtin" in case:
         res = observe(String(format=case["builtin"]), case["value"])
         return res != "accept"
+    if case.get("fresh_process"):
+        fresh_process_history([tuple(s) for s in case["steps"]], out, stats, case.get("label", "replay"))
+        return bool(out.failures)
     drv = core.Driver()
     try:
         run_history(drv, [tuple(s) for s in case["steps"]], out, stats, case.get("label", "replay"))
